@@ -91,6 +91,16 @@ func runC05(p *core.Prog, r *core.Report) {
 		r2.Check(ok, key, p.InstrPos(s.Call), "tabled system-field site: "+why, o+" parses decimal text with "+s.Name+" but is not a tabled system-field site: attribute integers must go through signed256 so that every reader agrees")
 	}
 	r.Analysed["strconv_sites"] = n
+	// wrappers that answer "is this text an integer" must answer exactly what the parser answers
+	nw := 0
+	for _, fn := range scope {
+		if parserWrapperAgrees(p, r2, fn) {
+			nw++
+		}
+	}
+	if nw == 0 {
+		r.Fatalf("C05.R2: no (text) -> (integer, ok) wrapper of signed256.ParseDecimal found (metabase.parseInt expected)")
+	}
 
 	// ---------------- R3 encode/decode symmetry
 	r3 := r.Rule("C05.R3", "DecodeBytes accepts exactly the sign bytes FillBytes writes, with the same meaning; both invert the magnitude exactly when negative; zero is normalised", 8)
@@ -401,4 +411,72 @@ func strIndex(v ssa.Value) (x, idx ssa.Value, ok bool) {
 		}
 	}
 	return nil, nil, false
+}
+
+// parserWrapperAgrees: fn is a `(text) -> (Int, bool)` wrapper of signed256.ParseDecimal applied to its own parameter;
+// then every return must hand back the parser's verdict: (n, err == nil), or (n, true) after err == nil, or (_, false)
+// after err != nil. Any other return (a pre-filter, a post-filter) makes this reader accept a different set of strings
+// than the other readers. Reports whether fn is such a wrapper.
+func parserWrapperAgrees(p *core.Prog, h *core.RuleH, fn *ssa.Function) bool {
+	res := fn.Signature.Results()
+	if fn.Blocks == nil || res.Len() != 2 || res.At(1).Type().String() != "bool" || !strings.HasSuffix(res.At(0).Type().String(), "signed256.Int") {
+		return false
+	}
+	var call *ssa.Call
+	for _, s := range core.CallSites([]*ssa.Function{fn}, func(s core.Site) bool { return s.Name == s256+"ParseDecimal" }) {
+		if c, ok := s.Call.(*ssa.Call); ok && core.ParamIndex(fn, c.Call.Args[0]) >= 0 {
+			call = c
+		}
+	}
+	if call == nil {
+		return false
+	}
+	var num, errv ssa.Value
+	for _, ref := range *call.Referrers() {
+		if ex, ok := ref.(*ssa.Extract); ok {
+			if ex.Index == 0 {
+				num = ex
+			} else {
+				errv = ex
+			}
+		}
+	}
+	name := core.FuncName(fn)
+	for _, b := range fn.Blocks {
+		ret, ok := b.Instrs[len(b.Instrs)-1].(*ssa.Return)
+		if !ok {
+			continue
+		}
+		verdict, okRet := ret.Results[1], false
+		why := "a return whose verdict is not the parser's"
+		switch v := verdict.(type) {
+		case *ssa.BinOp:
+			if c, isC := v.Y.(*ssa.Const); isC && c.IsNil() && v.X == errv && v.Op.String() == "==" && ret.Results[0] == num {
+				okRet = true
+			}
+		case *ssa.Const:
+			if v.Value != nil && errv != nil {
+				isTrue := v.Value.String() == "true"
+				for _, ref := range *errv.Referrers() {
+					bo, isB := ref.(*ssa.BinOp)
+					if !isB {
+						continue
+					}
+					// err != nil: true edge = rejected; err == nil: true edge = accepted
+					accEdge := bo.Op.String() == "=="
+					if isTrue && branchDominates(bo, accEdge, b) && ret.Results[0] == num {
+						okRet = true
+					}
+					if !isTrue && branchDominates(bo, !accEdge, b) {
+						okRet = true
+					}
+				}
+				if !okRet && !isTrue {
+					why = "answers 'not an integer' on a path where the parser was not asked or did not reject"
+				}
+			}
+		}
+		h.Check(okRet, name+"#return!parser-verdict", p.InstrPos(ret), "hands back signed256.ParseDecimal's own verdict", name+" "+why+": this reader accepts a different set of strings than the other integer readers (index written / removed / queried inconsistently)")
+	}
+	return true
 }
